@@ -138,6 +138,7 @@ class make_interest(Contract):
            'written and the length repaired')
     tier = 'thorough'
     shards = 8
+    partial_ok = True          # path budget: what was explored is reported, the rest is listed as unexplored in evidence
     raises = {e: (lambda cx, **p: True) for e in (ValueError, TypeError, struct.error, IndexError)}
 
     def setup(self, cx):
